@@ -336,6 +336,12 @@ class ExprMixin:
         deps = frozenset().union(*[v.deps for v in vals])
         if len(node.ops) == 1:
             op, r = node.ops[0], vals[1]
+            if isinstance(op, (ast.In, ast.NotIn)) and len(r.refs) == 1 and not r.locs:
+                from .interp_call import value_key
+                k = value_key(l)
+                if k is not None and k in self.obj(next(iter(r.refs))).notin:
+                    # the value was just removed from this list of distinct values
+                    return Val(const=isinstance(op, ast.NotIn), deps=deps)
             if isinstance(op, (ast.Is, ast.IsNot)) and r.has_const and r.const is None:
                 known = None
                 if l.has_const:
@@ -434,8 +440,12 @@ class ExprMixin:
             first = False
             self.out = ev.a["body"]
             iters.append((gen, it))
-            from .interp_call import strip_obs
-            deps |= strip_obs(it.deps)     # the iterable fixes the length; element data flows through the elt
+            from .interp_call import keys_deps, strip_obs
+            if it.refs and not it.locs and all(self.obj(r).cls == "dict" for r in it.refs):
+                # walking a dictionary walks its keys: the result depends on the key set, not on the stored values
+                deps |= keys_deps(strip_obs(it.deps))
+            else:
+                deps |= strip_obs(it.deps)     # the iterable fixes the length; element data flows through the elt
             self.loops = self.loops + ((lid, 1),)
             self.bind_loop_target(gen.target, it, gen.iter)
             for cond in gen.ifs:
